@@ -48,6 +48,8 @@ func (w *modelW) op(t *instM, kind int, k uint32) {
 	case KOk:
 	case KDeepOk:
 		t.Aux = DeepFrames
+	case KDeepHost:
+		t.Aux = DeepFrames + 1 // the host function at the bottom returns 1
 	case KProcExit0, KProcExit3:
 		code := uint32(0)
 		if kind == KProcExit3 {
